@@ -10,7 +10,7 @@ From S4.Base Require Import Bytes.
 From S4.Model Require Import Calendar Normalise.
 From S4.Gen Require Import DatetimeTables.
 From S4.Spec Require Import CalendarSpec TzRef NormaliseSpec.
-From S4.Proofs Require Import CalendarProofs CalendarExtra NormaliseTablesOk NormaliseProofs.
+From S4.Proofs Require Import CalendarProofs CalendarExtra NormaliseTablesOk NormaliseProofs NormaliseDenotes.
 Close Scope string_scope.
 Open Scope list_scope.
 Open Scope N_scope.
@@ -77,17 +77,22 @@ Proof. exact month_table_sound_ok. Qed.
 Print Assumptions C04_month_table_sound.
 
 (* every lower/Title/UPPER abbreviation, abbreviation-with-dot and full name has an arm with the right
-   number — except "may." (known finding month_may_with_dot, below) *)
-Theorem C04_month_table_complete : forall sp n, In (sp, n) ref_month_spellings -> may_dot sp = false ->
+   number: every spelling the regexes admit, "may." included (F12 fixed in /repo, commit 653ab12e) *)
+Theorem C04_month_table_complete : forall sp n, In (sp, n) ref_month_spellings ->
   exists v, assoc sp month_table = Some v /\ two_digit_val v = Some n.
 Proof. exact month_table_complete_all. Qed.
 Print Assumptions C04_month_table_complete.
 
-Theorem C04_may_dot_refuted :
-  exists sp, In (sp, 5%Z) ref_month_spellings /\ assoc sp month_table = None /\
-             forall d c, f_month d = Mo_b -> c_month c = Some sp -> seg_month month_table d c = None.
-Proof. exact may_dot_refuted_lemma. Qed.
-Print Assumptions C04_may_dot_refuted.
+(* regression lemma for F12: the table without the three "may." arms (as before the fix) panics on
+   "May.", the current table maps it to "05" *)
+Theorem C04_may_dot_regression :
+  let sp := [77; 97; 121; 46] in
+  In (sp, 5%Z) ref_month_spellings /\
+  assoc sp month_table_before_fix = None /\
+  (forall d c, f_month d = Mo_b -> c_month c = Some sp -> seg_month month_table_before_fix d c = None) /\
+  (forall d c, f_month d = Mo_b -> c_month c = Some sp -> seg_month month_table d c = Some [48; 53]).
+Proof. exact may_dot_regression_lemma. Qed.
+Print Assumptions C04_may_dot_regression.
 
 (* ================================================================== pattern table (regenerated) *)
 (* "pattern is interdependent with the other members": for each of the rows of DATETIME_PARSE_DATAS the
@@ -137,3 +142,42 @@ Theorem C04_named_zone_offset : forall d c t o tzs,
   exists s, seg_tz tz_table d c tzs = Some s /\ scan_offset false s = Some (o, []).
 Proof. exact named_zone_offset_lemma. Qed.
 Print Assumptions C04_named_zone_offset.
+
+(* ================================================================== THE UNIVERSAL THEOREM
+   For every row of the regenerated DATETIME_PARSE_DATAS that is not an epoch row, EVERY capture set,
+   every fill year and every fallback zone (whole minutes, |off| < 24 h): if the captured text denotes
+   an instant ([denoted_instant]: digits read as numbers, month names by the frozen English reference,
+   zone by the written offset / frozen Spec/TzRef.v / the fallback zone, the instant by the definitional
+   day count), then captures_to_buffer_bytes followed by chrono's parsing of the row's strftime pattern
+   ([model_instant] = normalise + parse_buffer, incl. BUFLEN) yields exactly that instant. *)
+Theorem C04_normalise_denotes : forall r c yo off t,
+  In r dt_table -> f_epoch (r_dtfs r) = E_none -> fallback_ok off = true ->
+  denoted_instant (r_dtfs r) c yo off = Some t ->
+  model_instant month_table tz_table (r_dtfs r) c yo off = Some t.
+Proof. exact normalise_denotes_rows. Qed.
+Print Assumptions C04_normalise_denotes.
+
+(* generic form: any DTFSSet (not only table rows) whose pattern is the one its fields require *)
+Theorem C04_normalise_denotes_generic : forall d c yo off t,
+  dtfs_ok d = true -> f_epoch d = E_none -> fallback_ok off = true ->
+  denoted_instant d c yo off = Some t ->
+  model_instant month_table tz_table d c yo off = Some t.
+Proof. exact normalise_denotes_closed. Qed.
+Print Assumptions C04_normalise_denotes_generic.
+
+(* F7 characterised for ALL epoch rows, texts and zones: the code's instant is the denoted instant
+   shifted by the fallback offset — right exactly when the fallback zone is UTC *)
+Theorem C04_epoch_shift : forall r c yo off t,
+  In r dt_table -> f_epoch (r_dtfs r) = E_s ->
+  denoted_instant (r_dtfs r) c yo off = Some t ->
+  model_instant month_table tz_table (r_dtfs r) c yo off = Some (t - off * NS)%Z.
+Proof. exact epoch_shift_rows. Qed.
+Print Assumptions C04_epoch_shift.
+
+(* the hypotheses are satisfiable: "2024 Feb.  9 23:59:59.123 (U+2212)03:30" denotes 2024-02-10T03:29:59.123Z *)
+Example C04_normalise_denotes_example :
+  dtfs_ok ex_dtfs = true /\ existsb (fun r => items_eqb [] [] && Bool.eqb (dtfs_ok (r_dtfs r)) true) dt_table = true /\
+  denoted_instant ex_dtfs ex_caps None 0 = Some 1707535799123000000%Z /\
+  model_instant month_table tz_table ex_dtfs ex_caps None 0 = Some 1707535799123000000%Z.
+Proof. exact normalise_denotes_example. Qed.
+Print Assumptions C04_normalise_denotes_example.
